@@ -34,7 +34,7 @@ def run(chk, tier, seed):
         for j in range(fam["nver"]):
             nvals = len(U["roots"][fam["roots"][j]]["vals"])
             for idx in range(min(nvals, 2 if tier == "quick" else 5)):
-                for meth in ("echo", "by_ref", "mixed", "cb", "mkcb"):
+                for meth in ("echo", "by_ref", "mixed", "cb", "mkcb", "wide"):
                     n += 1
                     lines.append("ga%d abi_call %d %d %d %s %d" % (n, fam["id"], j, j, meth, idx))
                     lines.append("gd%d abi_direct %d %d %s %d" % (n, fam["id"], j, meth, idx))
